@@ -86,6 +86,112 @@ fn judge_forward(codon: &[u8], got: &Result<Amino, TranslationError<Iupac, Amino
     }
 }
 
+/// all 21 amino symbols through try_to_codon against a brute-force search for exactly-matching IUPAC codons
+fn reverse_all(ctx: &mut Ctx) {
+    let a = model::iupac();
+    let am = model::amino();
+        // brute force: which gap-free IUPAC codons expand to exactly the codon set of each amino acid?
+        for s in Amino::items() {
+            ctx.eval();
+            let letter = s.to_char() as u8;
+            let cs = codons_of(letter);
+            let mut exact: Vec<[u8; 3]> = Vec::new();
+            if ctx.lite {
+                // reduced budgets: the brute-force oracle is too slow under an interpreter; only
+                // execute the call and its translate-back (the oracle comparison runs natively)
+                let r = observe(|| STANDARD.try_to_codon(s).map(|c| STANDARD.try_to_amino(&c)));
+                check!(ctx, matches!(r, Ok(Ok(Ok(x))) if x == s) || matches!(r, Ok(Err(TranslationError::AmbiguousCodon(_)))), "try_to_codon|amino|does-not-translate-back".to_string(), "try_to_codon({:?}) -> {:?}", letter as char, r);
+                continue;
+            }
+            for c0 in 1..16u8 {
+                for c1 in 1..16u8 {
+                    for c2 in 1..16u8 {
+                        if expansion(&[c0, c1, c2]) == cs {
+                            exact.push([c0, c1, c2]);
+                        }
+                    }
+                }
+            }
+            match observe(|| STANDARD.try_to_codon(s)) {
+                Ok(Ok(c)) => {
+                    let got = codes_of::<Iupac>(&c);
+                    check!(ctx, !exact.is_empty(), "try_to_codon|amino|should-be-ambiguous".to_string(), "try_to_codon({:?}) = {:?} but no single IUPAC codon matches exactly its {} codons", letter as char, show::<Iupac>(&c), cs.len());
+                    check!(ctx, exact.iter().any(|e| e[..] == got[..]), "try_to_codon|amino|inexact-codon".to_string(), "try_to_codon({:?}) = {:?} which does not match all and only the codons of that amino acid (exact: {:?})", letter as char, show::<Iupac>(&c), exact.iter().map(|e| a.text(e)).collect::<Vec<_>>());
+                    let back = observe(|| STANDARD.try_to_amino(&c));
+                    check!(ctx, matches!(back, Ok(Ok(x)) if x == s), "try_to_codon|amino|does-not-translate-back".to_string(), "try_to_codon({:?}) = {:?} translates back to {:?}", letter as char, show::<Iupac>(&c), back);
+                }
+                Ok(Err(TranslationError::AmbiguousCodon(x))) => {
+                    check!(ctx, exact.is_empty(), "try_to_codon|amino|should-be-exact".to_string(), "try_to_codon({:?}) reports ambiguity but {:?} matches exactly", letter as char, exact.iter().map(|e| a.text(e)).collect::<Vec<_>>());
+                    check!(ctx, x == s, "try_to_codon|amino|error-payload".to_string(), "AmbiguousCodon names {:?} for {:?}", x, s);
+                }
+                other => check!(ctx, false, "try_to_codon|amino|wrong-error".to_string(), "try_to_codon({:?}) = {:?}", letter as char, other),
+            }
+            cell!(ctx, "reverse/{}/{}", letter as char, if exact.is_empty() { "ambiguous" } else { "exact" });
+            ctx.nontrivial_s(&format!("rev/{}", letter as char));
+            let _ = am;
+        }
+}
+
+/// every gap-free IUPAC triple (owned, offset 0) judged for soundness and completeness
+fn forward_gapfree(ctx: &mut Ctx, how: &str) {
+    let a = model::iupac();
+    let mut k = 0usize;
+    for c0 in 1..16u8 {
+        for c1 in 1..16u8 {
+            for c2 in 1..16u8 {
+                k += 1;
+                if ctx.lite && k % 97 != ctx.shard % 97 {
+                    continue;
+                }
+                if ctx.over() {
+                    return;
+                }
+                let codon = [c0, c1, c2];
+                let s: Seq<Iupac> = a.text(&codon).as_str().try_into().unwrap();
+                ctx.eval();
+                match observe(|| STANDARD.try_to_amino(&s)) {
+                    Ok(r) => {
+                        if let Some((kind, d)) = judge_forward(&codon, &r) {
+                            check!(ctx, false, format!("try_to_amino|iupac|{kind}"), "{d} (tables first used {how})");
+                        }
+                    }
+                    Err(pm) => check!(ctx, false, "try_to_amino|iupac|panics".to_string(), "{:?}: panicked {pm} (tables first used {how})", a.text(&codon)),
+                }
+                ctx.nontrivial(fp(&[b"fo", how.as_bytes(), &codon]));
+            }
+        }
+    }
+}
+
+/// The two process-wide tables are lazily initialised and the reverse one is built from the forward
+/// one: which direction a process uses FIRST is part of the history the property quantifies over.
+/// Mode by (seed + shard) % 3 — 0: eight threads race both directions (below); 1: reverse direction
+/// first, sequentially, then the whole forward domain; 2: one forward query first, then the whole
+/// reverse domain, then the whole forward domain.  The 20 (thorough 300) process restarts use
+/// consecutive seeds, so every check run has processes of all three kinds.
+fn first_use_order(ctx: &mut Ctx) -> bool {
+    let mode = (ctx.seed as usize + ctx.shard) % 3;
+    if mode == 0 {
+        return false;
+    }
+    ctx.group("first-use-race", |ctx| {
+        if mode == 1 {
+            reverse_all(ctx);
+            forward_gapfree(ctx, "reverse-first");
+            cell!(ctx, "first-use/reverse-before-forward");
+        } else {
+            let r = observe(|| STANDARD.try_to_amino(iupac!("ATG")));
+            ctx.eval();
+            check!(ctx, matches!(r, Ok(Ok(Amino::M))), "try_to_amino|iupac|wrong".to_string(), "first query of the process ATG -> {:?}", r);
+            reverse_all(ctx);
+            forward_gapfree(ctx, "forward-first");
+            cell!(ctx, "first-use/forward-before-reverse");
+        }
+        ctx.count("first-use-order-processes", 1);
+    });
+    true
+}
+
 fn race(ctx: &mut Ctx) {
     // must run before anything else touches the tables
     ctx.group("first-use-race", |ctx| {
@@ -129,9 +235,10 @@ fn race(ctx: &mut Ctx) {
 
 fn main() {
     run_main("C14", |ctx| {
-        race(ctx);
+        if !first_use_order(ctx) {
+            race(ctx);
+        }
         let a = model::iupac();
-        let am = model::amino();
         ctx.group("all-4096-iupac-triples", |ctx| {
             let mut n_ok = 0u64;
             let mut n_amb = 0u64;
@@ -197,49 +304,10 @@ fn main() {
             check!(ctx, matches!(r, Ok((Err(TranslationError::InvalidCodon(_)), Err(TranslationError::InvalidCodon(_)), Err(TranslationError::InvalidCodon(_))))), "try_to_amino|iupac|length-static".to_string(), "empty / 5-symbol literals: {:?}", r);
         });
         ctx.group("reverse-all-21-aminos", |ctx| {
-            // brute force: which gap-free IUPAC codons expand to exactly the codon set of each amino acid?
-            for s in Amino::items() {
-                ctx.eval();
-                let letter = s.to_char() as u8;
-                let cs = codons_of(letter);
-                let mut exact: Vec<[u8; 3]> = Vec::new();
-                if ctx.lite {
-                    // reduced budgets: the brute-force oracle is too slow under an interpreter; only
-                    // execute the call and its translate-back (the oracle comparison runs natively)
-                    let r = observe(|| STANDARD.try_to_codon(s).map(|c| STANDARD.try_to_amino(&c)));
-                    check!(ctx, matches!(r, Ok(Ok(Ok(x))) if x == s) || matches!(r, Ok(Err(TranslationError::AmbiguousCodon(_)))), "try_to_codon|amino|does-not-translate-back".to_string(), "try_to_codon({:?}) -> {:?}", letter as char, r);
-                    continue;
-                }
-                for c0 in 1..16u8 {
-                    for c1 in 1..16u8 {
-                        for c2 in 1..16u8 {
-                            if expansion(&[c0, c1, c2]) == cs {
-                                exact.push([c0, c1, c2]);
-                            }
-                        }
-                    }
-                }
-                match observe(|| STANDARD.try_to_codon(s)) {
-                    Ok(Ok(c)) => {
-                        let got = codes_of::<Iupac>(&c);
-                        check!(ctx, !exact.is_empty(), "try_to_codon|amino|should-be-ambiguous".to_string(), "try_to_codon({:?}) = {:?} but no single IUPAC codon matches exactly its {} codons", letter as char, show::<Iupac>(&c), cs.len());
-                        check!(ctx, exact.iter().any(|e| e[..] == got[..]), "try_to_codon|amino|inexact-codon".to_string(), "try_to_codon({:?}) = {:?} which does not match all and only the codons of that amino acid (exact: {:?})", letter as char, show::<Iupac>(&c), exact.iter().map(|e| a.text(e)).collect::<Vec<_>>());
-                        let back = observe(|| STANDARD.try_to_amino(&c));
-                        check!(ctx, matches!(back, Ok(Ok(x)) if x == s), "try_to_codon|amino|does-not-translate-back".to_string(), "try_to_codon({:?}) = {:?} translates back to {:?}", letter as char, show::<Iupac>(&c), back);
-                    }
-                    Ok(Err(TranslationError::AmbiguousCodon(x))) => {
-                        check!(ctx, exact.is_empty(), "try_to_codon|amino|should-be-exact".to_string(), "try_to_codon({:?}) reports ambiguity but {:?} matches exactly", letter as char, exact.iter().map(|e| a.text(e)).collect::<Vec<_>>());
-                        check!(ctx, x == s, "try_to_codon|amino|error-payload".to_string(), "AmbiguousCodon names {:?} for {:?}", x, s);
-                    }
-                    other => check!(ctx, false, "try_to_codon|amino|wrong-error".to_string(), "try_to_codon({:?}) = {:?}", letter as char, other),
-                }
-                cell!(ctx, "reverse/{}/{}", letter as char, if exact.is_empty() { "ambiguous" } else { "exact" });
-                ctx.nontrivial_s(&format!("rev/{}", letter as char));
-                let _ = am;
-            }
+            reverse_all(ctx);
             ctx.sample(|| json!({"domain": "all 21 amino symbols", "oracle": "brute force over 15^3 gap-free IUPAC codons"}));
         });
         ctx.note("exhaustive", json!(true));
-        ctx.note("rule", json!("8 threads race the first use of both process-wide tables (each judged by the oracle); then the complete domain: all 16^3 IUPAC triples (15^3 gap-free judged for soundness AND completeness against the expansion through NCBI table 1; gapped ones for no-panic) at slice pads 0, 1, 14, 15 (two of them straddling a word); codons of length 0,1,2,4,5,6,16,17 must give InvalidCodon; all 21 amino symbols through try_to_codon against a brute-force search for exactly-matching IUPAC codons. Distinct = codon / (length,content,pad) / amino."));
+        ctx.note("rule", json!("first use of the two process-wide tables, by (seed+shard)%3: 8 threads race both directions (each judged by the oracle) / reverse direction first then the complete forward and reverse domains / forward first then both domains - the process restarts use consecutive seeds and cover all three; then the complete domain: all 16^3 IUPAC triples (15^3 gap-free judged for soundness AND completeness against the expansion through NCBI table 1; gapped ones for no-panic) at slice pads 0, 1, 14, 15 (two of them straddling a word); codons of length 0,1,2,4,5,6,16,17 must give InvalidCodon; all 21 amino symbols through try_to_codon against a brute-force search for exactly-matching IUPAC codons. Distinct = codon / (length,content,pad) / amino."));
     });
 }
